@@ -115,16 +115,23 @@ Theorem c10_column_update_never_refreshes_map : forall s table, wf s -> forall s
 Proof. exact column_update_never_now_map. Qed.
 Print Assumptions c10_column_update_never_refreshes_map.
 
-(* whole operations as the checker runs them: an update touches only rows that are stored, match the
-   model key and the chain condition, and only updatable columns of the schema *)
+(* whole operations as the checker runs them: an update touches only rows that are stored, match EVERY
+   non-zero member of the model value's (possibly composite) primary key ([key_match], see
+   c10_key_match) and the chain condition, and only updatable columns of the schema *)
 Theorem c10_update_cells : forall s table, wf s -> forall o selects omits ps stored mk wh x,
   is_update_op o = true ->
   In x (out_cells (run_op s table o selects omits ps stored mk wh)) ->
-  (In (c_row x) stored /\ (mk = 0 \/ c_row x = mk) /\ match wh with None => True | Some l => In (c_row x) l end)
+  (exists ks, In (c_row x, ks) stored /\ key_match mk ks = true
+              /\ match wh with None => True | Some l => In (c_row x) l end)
   /\ ((exists f, In f s /\ has_col f = true /\ c_col x = f_db f /\ updatable f = true)
       \/ lookup_field s (c_col x) = None).
 Proof. exact update_cells_permitted. Qed.
 Print Assumptions c10_update_cells.
+
+Theorem c10_key_match : forall mk ks, key_match mk ks = true ->
+  forall m k, In (m, k) (combine mk ks) -> m = 0 \/ k = m.
+Proof. exact key_match_spec. Qed.
+Print Assumptions c10_key_match.
 
 Theorem c10_create_cells : forall s table, wf s -> forall o selects omits ps stored mk wh x,
   (o = OCreate \/ o = OCreateBatch) ->
